@@ -1056,6 +1056,34 @@ def gen_convert(repo):
         '  ("%s", %s)' % (s_, str(d).replace("'", '"')) for s_, d in rows)
     return out
 
+def gen_cropf64(repo):
+    """CroppedSrcImageView::crop and the guards of resize_typed, as the ordered list of
+    (negated?, condition text, outcome) the hand-written float model mirrors."""
+    f = 'src/crop_box.rs'
+    src = read(repo, f)
+    m = re.search(r'pub fn crop\(image_view: &\'a T, crop_box: CropBox\) -> Result<Self, CropBoxError> \{(.*?)\n        Ok\(Self \{', src, re.S)
+    if not m:
+        raise TranslationError("CroppedSrcImageView::crop not found")
+    body = m.group(1)
+    steps = []
+    pos = 0
+    for a in re.finditer(r'(let (\w+) = ([^;]+);)|(if (.*?)\s*\{\s*return Err\(CropBoxError::(\w+)\);\s*\})', body, re.S):
+        if a.group(1):
+            steps.append(('let', a.group(2), ' '.join(a.group(3).split())))
+        else:
+            steps.append(('guard', ' '.join(a.group(5).split()), a.group(6)))
+    out = '/-- %s: CroppedSrcImageView::crop as a list of steps: ("let", name, expr) | ("guard", condition, error) -/\n' % f
+    out += 'def cropF64Steps : List (String × String × String) := [\n%s]\n\n' % ',\n'.join(
+        '  ("%s", "%s", "%s")' % st for st in steps)
+    f = 'src/resizer.rs'
+    src = read(repo, f)
+    m = re.search(r'let crop_box = options\.get_crop_box\(src_view, dst_view\);\s*if (.*?)\{\s*// Do nothing.*?return Ok\(\(\)\);\s*\}\s*let cropped_src_view = CroppedSrcImageView::crop\(src_view, crop_box\)\?;\s*if copy_image\(&cropped_src_view, dst_view\)\.is_ok\(\)', src, re.S)
+    if not m:
+        raise TranslationError("resize_typed prologue (zero-size early-out, crop validation, copy fast path) changed shape")
+    out += '/-- %s: zero-size early-out condition of resize_typed (evaluated before crop validation) -/\n' % f
+    out += 'def resizeEarlyOut : String := "%s"\n\n' % ' '.join(m.group(1).split())
+    return out
+
 def gen_sizes(repo):
     """Buffer-size expressions of the image constructors."""
     out = ''
@@ -1093,6 +1121,7 @@ GENERATORS = [
     ('Lists', gen_lists),
     ('Sizes', gen_sizes),
     ('Convert', gen_convert),
+    ('CropF64', gen_cropf64),
 ]
 
 def write_if_changed(path, content):
